@@ -12,5 +12,6 @@ CONSTANTS
   Seeks <- SKq
   Pages <- PGq
   MaxFail = 0
+  StoreRemoves = TRUE
 INVARIANT ModelProps
 CHECK_DEADLOCK FALSE
